@@ -112,11 +112,15 @@ LinkText(g) == IF g.k = "port" THEN ToString(g.l) ELSE Str(g.a)
 RECURSIVE Slashed(_)
 Slashed(segs) == ToString(segs[1].p) \o "/" \o LinkText(segs[1]) \o (IF Len(segs) = 1 THEN "" ELSE "/" \o Slashed(Tail(segs)))
 JsonSeg(g) == "{\"port\": " \o ToString(g.p) \o ", \"link\": " \o (IF g.k = "port" THEN ToString(g.l) ELSE "\"" \o Str(g.a) \o "\"") \o "}"
+\* the same with the numbers spelled as JSON strings ("port": "1"): still the segment port 1
+JsonSegQ(g) == "{\"port\": \"" \o ToString(g.p) \o "\", \"link\": \"" \o (IF g.k = "port" THEN ToString(g.l) ELSE Str(g.a)) \o "\"}"
+RECURSIVE JsonSegsQ(_)
+JsonSegsQ(segs) == JsonSegQ(segs[1]) \o (IF Len(segs) = 1 THEN "" ELSE ", " \o JsonSegsQ(Tail(segs)))
 RECURSIVE JsonSegs(_)
 JsonSegs(segs) == JsonSeg(segs[1]) \o (IF Len(segs) = 1 THEN "" ELSE ", " \o JsonSegs(Tail(segs)))
 RECURSIVE JsonStrs(_)
 JsonStrs(segs) == "\"" \o Slashed(<<segs[1]>>) \o "\"" \o (IF Len(segs) = 1 THEN "" ELSE ", " \o JsonStrs(Tail(segs)))
-RouteTexts(segs) == { Slashed(segs), "[" \o JsonSegs(segs) \o "]", "[" \o JsonStrs(segs) \o "]" }
+RouteTexts(segs) == { Slashed(segs), "[" \o JsonSegs(segs) \o "]", "[" \o JsonStrs(segs) \o "]", "[" \o JsonSegsQ(segs) \o "]" }
                     \cup (IF Len(segs) = 1 THEN { JsonSeg(segs[1]) } ELSE {})
 RouteShapes == { Route10, Route23, Route11, Route20, RouteX, RouteA, Route10_23, RouteA \o Route10, Route23 \o RouteA \o RouteX }
 EmitRouteTexts == \A segs \in RouteShapes : \A tx \in RouteTexts(segs) : PrintT(ToJson([k |-> "rtext", segs |-> segs, text |-> tx]))
